@@ -158,6 +158,12 @@ def _shrink_c15(best, attempt, budget):
     _ddmin_list(best["trace"]["tasks"], lambda ts: len(ts) >= 1 and attempt(variant(tasks=ts)), budget)
     # drop schedule decisions
     _ddmin_list(best["trace"].get("schedule", []), lambda sc: attempt(variant(schedule=sc)), budget)
+    # the plain constructor + run() instead of the file entry point
+    for i in range(len(best["trace"]["tasks"])):
+        ts = copy.deepcopy(best["trace"]["tasks"])
+        if ts[i].get("via_file"):
+            ts[i].pop("via_file")
+            attempt(variant(tasks=ts))
     # drop second objects of a thread
     for i in range(len(best["trace"]["tasks"])):
         ts = copy.deepcopy(best["trace"]["tasks"])
